@@ -908,6 +908,30 @@ def rule_stringify(model):
             if fi is hq:
                 names.add(fi.params()[0])
             targets.append((fi, names, anchor))
+    # in the escaper the conversion comes first: the bytes test / decode is
+    # applied to what ustr() returned (an object whose __str__ yields bytes
+    # is text only after ustr), never to the raw argument
+    for f_ in closure(hq):
+        for d_ in own_nodes(f_.node):
+            if not (isinstance(d_, ast.Call) and isinstance(
+                    d_.func, ast.Attribute) and d_.func.attr == 'decode'
+                    and isinstance(d_.func.value, ast.Name)):
+                continue
+            v_ = d_.func.value.id
+            defs_ = [x for x in model.local_defs(f_, v_)]
+            conv_ = any(isinstance(x, ast.Call) and
+                        conv in model.callee_names(x, f_) for x in defs_
+                        if isinstance(x, ast.AST))
+            r.instance(f_.where, d_, 'decodes what ustr() returned'
+                       if conv_ else 'DECODES THE RAW ARGUMENT')
+            if not conv_:
+                r.finding(f_.where, d_, f'`{v_}` is tested for bytes / '
+                          'decoded before it went through ustr(): a value '
+                          'whose string form is bytes (an object with '
+                          '__str__ returning encoded bytes, an exception '
+                          'with a bytes message) is converted afterwards '
+                          'and reaches the escaper as bytes', node=d_,
+                          ctx=f_)
     have = {}
     for fi, names, anchor in targets:
         uses = [n for n in own_nodes(fi.node) if isinstance(n, ast.Call)
